@@ -664,6 +664,36 @@ func TestStress(t *testing.T) {
 			r.Violation(fmt.Sprintf("stress-big:%d", i), fmt.Sprintf("cache %+v with thousands of uniform elements: %s", cc, v.(string)), map[string]any{"run": i, "lru": cc.EnableLRU, "max_count": cc.MaxCount, "max_size": cc.MaxSize})
 		}
 	}
+	// independent caches, one goroutine each: nothing is shared between them, so any race report here is hidden
+	// package-level state
+	{
+		var wg sync.WaitGroup
+		for g := 0; g < 8; g++ {
+			wg.Add(1)
+			go func() {
+				defer wg.Done()
+				c := cache.New(cache.Config{EnableLRU: g%2 == 1, MaxCount: uint(g % 3 * 4)})
+				for n := 0; n < r.Pick(20_000, 200_000); n++ {
+					k := []byte{byte('a' + n%7)}
+					switch n % 5 {
+					case 0, 1:
+						c.Set(k, []byte("v"))
+					case 2:
+						c.Del(k)
+					case 3:
+						_ = c.Get(k)
+					default:
+						if n%1000 == 4 {
+							c.Clear()
+						}
+						_ = c.Stats()
+					}
+				}
+			}()
+		}
+		wg.Wait()
+		ops.Add(8 * int64(r.Pick(20_000, 200_000)))
+	}
 	r.Count("big_cache_stats_snapshots", bigSnaps.Load())
 	r.Eval(ops.Load())
 	r.NontrivialN(int64(runs))
